@@ -133,7 +133,20 @@ def c01(ctx):
     validate_trace(ctx, "applier", ["-n", str(ntrace), "-maxlen", str(maxlen), "-td", "1"], "ApplierTrace.tla",
                    "ApplierTrace.cfg", "applier_trace.ndjson", histories=ntrace, key_of=applier_opkey,
                    corrupt=corrupt_applier)
+    if ctx.tier != "quick":
+        applier_proofs(ctx)
     ctx.exhaustive = False
+
+
+def applier_proofs(ctx):
+    """thorough tier: the design-level invariants and action properties of Applier.tla, proved by TLAPS for
+    histories of any length over any alphabet (spec/proofs/ApplierProofs.tla)"""
+    n = ctx.tlaps_check("ApplierProofs.tla",
+                        label="TLAPS: Inv inductive (DeactivatedShape, NilUntilCreate, UpdNeedsRec) and the action "
+                              "properties UnauthorizedIsStutter, OpListsCarried, CreatedImmutable, RecOnlyByRecoveryOps, "
+                              "DocNeedsBoundDelta, OutOfWindowKeepsDoc for unbounded histories, any alphabet")
+    ctx.assumptions.append("TLAPS proofs (%d obligations) are about the specification; the code is bound to the "
+                           "specification by the replay and trace validation stages" % n)
 
 
 def c02(ctx):
@@ -163,6 +176,8 @@ def c02(ctx):
         ctx.tlc_pipe("MC_Applier.tla", "MC_Applier.cfg", ["applier-replay", "-td", "1"], overrides=ov,
                      label="every pair of deviations, key type " + kt)
     ctx.negctl_replay(["applier-replay", "-td", "1"], first, bump("rec"))
+    if ctx.tier != "quick":
+        applier_proofs(ctx)
 
 
 def c09(ctx):
@@ -202,6 +217,8 @@ def c09(ctx):
             m["key"] = "pvariant%d:" % v + m.get("key", "")
             ctx.add_violation(m)
     ctx.negctl_replay(["applier-replay", "-td", "1", "-parser"], first, bump("updated"))
+    if ctx.tier != "quick":
+        applier_proofs(ctx)
     ctx.exhaustive = True
 
 
@@ -810,7 +827,6 @@ def c20(ctx):
     ctx.assumptions = ["data-race freedom is observed by the Go race detector on the schedules that occurred, not proved",
                        "every concurrent call gets its own copy of its input (the statement speaks of distinct inputs)"]
     ctx.build(race=True)
-    ctx.build()
     # the sequential objects the concurrent calls must be equivalent to (Versions.tla): every transition of the
     # registry / version provider / namespace provider model is replayed on the real objects
     deep = ctx.tier != "quick"
